@@ -4,6 +4,7 @@ import ast
 import copy
 import inspect
 import logging
+import types
 from dataclasses import dataclass, is_dataclass, make_dataclass
 from typing import (
     Any,
@@ -453,6 +454,19 @@ class _MethodTypeReturnInfo:
 T = TypeVar("T")
 
 
+# What the attributes of classes written in C look like (str.split, deque.append, re.Pattern.match,
+# object.__str__, complex.real)
+_c_level_attributes = (
+    types.BuiltinFunctionType,
+    types.MethodDescriptorType,
+    types.WrapperDescriptorType,
+    types.ClassMethodDescriptorType,
+    types.MethodWrapperType,
+    types.GetSetDescriptorType,
+    types.MemberDescriptorType,
+)
+
+
 def _is_declared_class(c: Any) -> bool:
     """A class made by a `class` statement, as opposed to one of the interpreter's own types (str,
     int, module, NoneType, ...), whatever its `__module__` says."""
@@ -667,7 +681,9 @@ def remap_by_types(
             # Take the base possible one.
             return_results: List[_MethodTypeReturnInfo] = []
             for base_obj in base_obj_list:
-                if not _is_declared_class(base_obj.method_class):
+                if not _is_declared_class(base_obj.method_class) or isinstance(
+                    base_obj.method, _c_level_attributes
+                ):
                     # The attribute comes from one of the interpreter's own classes (str.split,
                     # list.count, object.__str__, complex.real): nothing is declared for it.
                     # The call is emitted as written - not given the builtin's own defaults -
